@@ -294,6 +294,77 @@ fn cmd_fibcounts<T: Raw>(t: &mut Toks) -> String where T::Signed: Raw, T::Unsign
   format!("ok n={} max_code_len={} bytes={} {}", n, maxlen, bytes.len(), res)
 }
 
+// chunkbytes <level> <order> <gcds> <nchunks> chunks.. : header bytes, each chunk's bytes from
+// one compressor drained after every call, whether each chunk compressed alone in a fresh
+// compressor gives the same bytes, and whether 8 concurrent threads give the same bytes
+fn cmd_chunkbytes<T: Raw + Send + Sync>(t: &mut Toks) -> String where T::Signed: Raw {
+  let level = t.usize();
+  let order = t.usize();
+  let gcds = t.usize() != 0;
+  let nchunks = t.usize();
+  let chunks: Vec<Vec<T>> = (0..nchunks).map(|_| read_nums::<T>(t)).collect();
+  let one = |chunks: &Vec<Vec<T>>| -> Result<(Vec<u8>, Vec<Vec<u8>>, Vec<u8>), String> {
+    let mut c = Compressor::<T>::from_config(config(level, order, gcds));
+    c.header().map_err(|e| err_str(&e))?;
+    let hdr = c.drain_bytes();
+    let mut cb = Vec::new();
+    for ch in chunks {
+      c.chunk(ch).map_err(|e| err_str(&e))?;
+      cb.push(c.drain_bytes());
+    }
+    c.footer().map_err(|e| err_str(&e))?;
+    Ok((hdr, cb, c.drain_bytes()))
+  };
+  let (hdr, cb, ftr) = match one(&chunks) { Ok(x) => x, Err(e) => return e };
+  let mut fresh_equal = true;
+  for (i, ch) in chunks.iter().enumerate() {
+    let mut c = Compressor::<T>::from_config(config(level, order, gcds));
+    c.header().unwrap();
+    c.drain_bytes();
+    c.chunk(ch).unwrap();
+    if c.drain_bytes() != cb[i] { fresh_equal = false; }
+  }
+  // undrained single compressor
+  let mut c = Compressor::<T>::from_config(config(level, order, gcds));
+  c.header().unwrap();
+  for ch in &chunks { c.chunk(ch).unwrap(); }
+  c.footer().unwrap();
+  let whole = c.drain_bytes();
+  let mut cat = hdr.clone();
+  for b in &cb { cat.extend(b); }
+  cat.extend(&ftr);
+  let undrained_equal = whole == cat;
+  let chunks_ref = &chunks;
+  let results: Vec<Vec<Vec<u8>>> = std::thread::scope(|s| {
+    let hs: Vec<_> = (0..8).map(|_| s.spawn(move || {
+      let mut c = Compressor::<T>::from_config(config(level, order, gcds));
+      c.header().unwrap();
+      c.drain_bytes();
+      chunks_ref.iter().map(|ch| { c.chunk(ch).unwrap(); c.drain_bytes() }).collect::<Vec<_>>()
+    })).collect();
+    hs.into_iter().map(|h| h.join().unwrap()).collect()
+  });
+  let threads_equal = results.iter().all(|r| *r == cb);
+  let mut s = format!("ok {} {} fresh={} undrained={} threads={} {}", hex(&hdr), hex(&ftr), fresh_equal, undrained_equal, threads_equal, cb.len());
+  for b in &cb { s.push(' '); s.push_str(&hex(b)); }
+  s
+}
+
+// autosizes <level> <n> xs : byte_size after header+chunk(head 1000) at the trial settings of
+// auto_delta_encoding_order, for delta orders 0..=7
+fn cmd_autosizes<T: Raw>(t: &mut Toks) -> String {
+  let level = t.usize();
+  let xs = read_nums::<T>(t);
+  let head = if xs.len() < 1000 { &xs[..] } else { &xs[0..1000] };
+  let mut s = String::from("ok");
+  for order in 0..8 {
+    let mut c = Compressor::<T>::from_config(config(std::cmp::min(level, 6), order, false));
+    c.header().unwrap();
+    match c.chunk(head) { Ok(_) => s.push_str(&format!(" {}", c.byte_size())), Err(_) => s.push_str(" err") }
+  }
+  s
+}
+
 fn cmd_simple<T: Raw>(t: &mut Toks) -> String {
   let level = t.usize();
   let order = t.usize();
@@ -396,13 +467,15 @@ fn cmd_whist<T: Raw>(t: &mut Toks) -> String where T::Signed: Raw {
   outs.join(" ; ")
 }
 
-fn dispatch<T: Raw>(cmd: &str, t: &mut Toks) -> String where T::Signed: Raw, T::Unsigned: UParse {
+fn dispatch<T: Raw + Send + Sync>(cmd: &str, t: &mut Toks) -> String where T::Signed: Raw, T::Unsigned: UParse {
   match cmd {
     "conv" => cmd_conv::<T>(t),
     "fromu" => cmd_fromu::<T>(t),
     "sweep" => cmd_sweep::<T>(t),
     "compress" => cmd_compress::<T>(t),
     "simple" => cmd_simple::<T>(t),
+    "chunkbytes" => cmd_chunkbytes::<T>(t),
+    "autosizes" => cmd_autosizes::<T>(t),
     "bigrun" => cmd_bigrun::<T>(t),
     "fibcounts" => cmd_fibcounts::<T>(t),
     "auto" => cmd_auto::<T>(t),
